@@ -122,7 +122,7 @@ def _function_body(src, cls):
     return m.group(1), src[m.end():i - 1]
 
 
-_TOK = re.compile(r"\s*(?:(\d+)[uUlL]*|(ts\s*\.\s*tv_nsec|ts\s*\.\s*tv_sec|[A-Za-z_]\w*)|(\+\+|--|\+=|-=|\*=|/=|%=|>=|<=|==|!=|&&|\|\||[-+*/%()<>=!{};]))")
+_TOK = re.compile(r"\s*(?:(\d+[uUlL]*)|(ts\s*\.\s*tv_nsec|ts\s*\.\s*tv_sec|[A-Za-z_]\w*)|(\+\+|--|\+=|-=|\*=|/=|%=|>=|<=|==|!=|&&|\|\||[-+*/%()<>=!{};]))")
 
 
 def _tokens(text):
@@ -135,7 +135,9 @@ def _tokens(text):
             break
         start = m.end() - len(m.group(0).lstrip())
         if m.group(1) is not None:
-            toks.append(("num", int(m.group(1)), start))
+            if re.search(r"[uU]", m.group(1)):
+                break                        # unsigned arithmetic is not in the translated subset
+            toks.append(("num", (int(re.match(r"\d+", m.group(1)).group(0)), bool(re.search(r"[lL]", m.group(1)))), start))
         elif m.group(2) is not None:
             toks.append(("id", re.sub(r"\s", "", m.group(2)), start))
         else:
@@ -146,13 +148,19 @@ def _tokens(text):
 
 
 class _Sym:
-    """symbolic execution of the statement list into Lean `let`s (SSA); C `/` `%` on the non-negative operands that occur
-    here (clock value, time-out >= 0) are Lean's Int `/` `%`"""
+    """symbolic execution of the statement list into Lean `let`s (SSA), twice:
+    (u) over unbounded Int with Lean's `/` `%` (= C's on the non-negative operands of the intended use: clock value, time-out >= 0),
+    (c) with C's semantics: `/` `%` truncate towards zero (`cdiv`, `cmod` of Nstd/Sync/CArith.lean), every arithmetic result is
+        named and listed with the range of its C type (int for operands that are all `int`, else the 64-bit long / int64 / time_t of
+        LP64) and every divisor with `≠ 0` — the obligations of "no signed overflow, no division by zero", guarded by the
+        conditions of the enclosing `if`s."""
 
     def __init__(self, toks, param):
         self.t, self.i, self.param = toks, 0, param
         self.env = {"ts.tv_sec": "sec", "ts.tv_nsec": "nsec"}
+        self.cenv = {"ts.tv_sec": "sec", "ts.tv_nsec": "nsec"}
         self.lets, self.n = [], 0
+        self.clets, self.cn, self.obl, self.guard = [], 0, [], []
 
     def peek(self):
         return self.t[self.i][:2] if self.i < len(self.t) else ("eof", None)
@@ -167,25 +175,88 @@ class _Sym:
         self.i += 1
         return v
 
-    def fresh(self, var, expr):
+    def fresh(self, var, node):
+        """assign the value of the AST `node` to ts.tv_sec / ts.tv_nsec (both versions)"""
+        cexpr, _ = self.emit_c(node)
         self.n += 1
         name = ("sec" if var == "ts.tv_sec" else "nsec") + str(self.n)
-        self.lets.append(f"  let {name} : Int := {expr}")
+        self.lets.append(f"  let {name} : Int := {self.emit_u(node)}")
+        self.clets.append(f"  let {name} : Int := {cexpr}")
         self.env[var] = name
+        self.cenv[var] = name
 
-    # expressions: || && comparison additive multiplicative unary primary
+    # ---- the two emitters over the expression AST --------------------------------------------------
+    def emit_u(self, e):
+        k = e[0]
+        if k == "num":
+            return str(e[1])
+        if k == "var":
+            return self.env[e[1]] if e[1] in self.env else "timeout"
+        if k == "ssa":
+            return e[1]
+        if k == "bin":
+            return f"({self.emit_u(e[2])} {e[1]} {self.emit_u(e[3])})"
+        if k == "neg":
+            return f"(-{self.emit_u(e[1])})"
+        if k == "not":
+            return f"(¬{self.emit_u(e[1])})"
+        if k == "cmp":
+            return f"({self.emit_u(e[2])} {e[1]} {self.emit_u(e[3])})"
+        if k in ("and", "or"):
+            return f"({self.emit_u(e[1])} {'∧' if k == 'and' else '∨'} {self.emit_u(e[2])})"
+        raise TransErr("internal: " + k)
+
+    def _g(self, prop):
+        return prop if not self.guard else "(" + " ∧ ".join(self.guard) + " → " + prop + ")"
+
+    def _tmp(self, expr, ty):
+        self.cn += 1
+        name = f"c{self.cn}"
+        self.clets.append(f"  let {name} : Int := {expr}")
+        self.obl.append(self._g(f"in{ty} {name}"))
+        return name
+
+    def emit_c(self, e):
+        """returns (Lean term, C type width 32 | 64); conditions have width 0"""
+        k = e[0]
+        if k == "num":
+            return str(e[1]), (64 if e[2] or e[1] > 2147483647 else 32)
+        if k == "var":
+            return (self.cenv[e[1]] if e[1] in self.cenv else "timeout"), 64
+        if k == "ssa":
+            return e[2], 64
+        if k == "bin":
+            (a, ta), (b, tb) = self.emit_c(e[2]), self.emit_c(e[3])
+            ty = max(ta, tb)
+            if e[1] in ("/", "%"):
+                self.obl.append(self._g(f"({b} : Int) ≠ 0"))
+                q = self._tmp(f"cdiv {a} {b}", ty)          # INT_MIN / -1 overflows; the same operands make % undefined
+                return (q, ty) if e[1] == "/" else (self._tmp(f"cmod {a} {b}", ty), ty)
+            return self._tmp(f"{a} {e[1]} {b}", ty), ty
+        if k == "neg":
+            a, ta = self.emit_c(e[1])
+            return self._tmp(f"-{a}", ta), ta
+        if k == "not":
+            return f"(¬{self.emit_c(e[1])[0]})", 0
+        if k == "cmp":
+            return f"({self.emit_c(e[2])[0]} {e[1]} {self.emit_c(e[3])[0]})", 0
+        if k in ("and", "or"):
+            return f"({self.emit_c(e[1])[0]} {'∧' if k == 'and' else '∨'} {self.emit_c(e[2])[0]})", 0
+        raise TransErr("internal: " + k)
+
+    # expressions: || && comparison additive multiplicative unary primary  ->  AST
     def expr(self):
         a = self.conj()
         while self.peek() == ("op", "||"):
             self.take()
-            a = f"({a} ∨ {self.conj()})"
+            a = ("or", a, self.conj())
         return a
 
     def conj(self):
         a = self.cmp()
         while self.peek() == ("op", "&&"):
             self.take()
-            a = f"({a} ∧ {self.cmp()})"
+            a = ("and", a, self.cmp())
         return a
 
     def cmp(self):
@@ -195,40 +266,38 @@ class _Sym:
             self.take()
             b = self.add()
             rel = {">=": "≥", "<=": "≤", "==": "=", "!=": "≠"}.get(v, v)
-            return f"({a} {rel} {b})"
+            return ("cmp", rel, a, b)
         return a
 
     def add(self):
         a = self.mul()
         while self.peek() in (("op", "+"), ("op", "-")):
             o = self.take()
-            a = f"({a} {o} {self.mul()})"
+            a = ("bin", o, a, self.mul())
         return a
 
     def mul(self):
         a = self.unary()
         while self.peek() in (("op", "*"), ("op", "/"), ("op", "%")):
             o = self.take()
-            a = f"({a} {o} {self.unary()})"
+            a = ("bin", o, a, self.unary())
         return a
 
     def unary(self):
         if self.peek() == ("op", "-"):
             self.take()
-            return f"(-{self.unary()})"
+            return ("neg", self.unary())
         if self.peek() == ("op", "!"):
             self.take()
-            return f"(¬{self.unary()})"
+            return ("not", self.unary())
         k, v = self.peek()
         if k == "num":
             self.take()
-            return str(v)
+            return ("num", v[0], v[1])
         if k == "id":
             self.take()
-            if v in self.env:
-                return self.env[v]
-            if v == self.param:
-                return "timeout"
+            if v in self.env or v == self.param:
+                return ("var", v)
             raise TransErr("unknown identifier in the deadline arithmetic: " + v)
         if (k, v) == ("op", "("):
             self.take()
@@ -252,20 +321,30 @@ class _Sym:
         if (k, v) == ("id", "if"):
             self.take()
             self.take("op", "(")
-            c = self.expr()
+            cnode = self.expr()
             self.take("op", ")")
-            before = dict(self.env)
+            c, cc = self.emit_u(cnode), self.emit_c(cnode)[0]
+            before, cbefore = dict(self.env), dict(self.cenv)
+            self.guard.append(cc)
             self.block()
-            then = dict(self.env)
-            self.env = dict(before)
+            self.guard.pop()
+            then, cthen = dict(self.env), dict(self.cenv)
+            self.env, self.cenv = dict(before), dict(cbefore)
             if self.peek() == ("id", "else"):
                 self.take()
+                self.guard.append(f"(¬{cc})")
                 self.block()
-            els = dict(self.env)
-            self.env = dict(before)
+                self.guard.pop()
+            els, cels = dict(self.env), dict(self.cenv)
+            self.env, self.cenv = dict(before), dict(cbefore)
             for var in ("ts.tv_sec", "ts.tv_nsec"):
                 if then[var] != els[var]:
-                    self.fresh(var, f"if {c} then {then[var]} else {els[var]}")
+                    self.n += 1
+                    name = ("sec" if var == "ts.tv_sec" else "nsec") + str(self.n)
+                    self.lets.append(f"  let {name} : Int := if {c} then {then[var]} else {els[var]}")
+                    self.clets.append(f"  let {name} : Int := if {cc} then {cthen[var]} else {cels[var]}")
+                    self.env[var] = name
+                    self.cenv[var] = name
             return
         if k == "op" and v in ("++", "--"):
             self.take()
@@ -273,7 +352,7 @@ class _Sym:
             if var not in self.env:
                 raise TransErr("increment of " + var)
             self.take("op", ";")
-            self.fresh(var, f"{self.env[var]} {'+' if v == '++' else '-'} 1")
+            self.fresh(var, ("bin", "+" if v == "++" else "-", ("var", var), ("num", 1, False)))
             return
         var = self.take("id")
         if var not in self.env:
@@ -282,14 +361,14 @@ class _Sym:
         if k == "op" and o in ("++", "--"):
             self.take()
             self.take("op", ";")
-            self.fresh(var, f"{self.env[var]} {'+' if o == '++' else '-'} 1")
+            self.fresh(var, ("bin", "+" if o == "++" else "-", ("var", var), ("num", 1, False)))
             return
         if k != "op" or o not in ("=", "+=", "-=", "*=", "/=", "%="):
             raise TransErr(f"unsupported statement on {var}: {o}")
         self.take()
         e = self.expr()
         self.take("op", ";")
-        self.fresh(var, e if o == "=" else f"{self.env[var]} {o[0]} {e}")
+        self.fresh(var, e if o == "=" else ("bin", o[0], ("var", var), e))
 
     def block(self):
         if self.peek() == ("op", "{"):
@@ -328,7 +407,7 @@ def translate_deadline(repo, cls, rel, call):
         raise TransErr(f"{cls}::wait(int64): ts is used again after the statements that were translated: {stmts[sym.offset():][:60].strip()}")
     stmts = stmts[:sym.offset()]        # ... (and ts is not touched again before the wait: checked above and on `tail`)
     text = " ".join(stmts.split())
-    return text, sym.lets, sym.env["ts.tv_sec"], sym.env["ts.tv_nsec"]
+    return text, sym.lets, sym.env["ts.tv_sec"], sym.env["ts.tv_nsec"], sym.clets, sym.obl, sym.cenv["ts.tv_sec"], sym.cenv["ts.tv_nsec"]
 
 
 GEN_ORDER = C.LEAN / "Nstd" / "Generated" / "SyncMonitorOrder.lean"
@@ -377,19 +456,30 @@ def translate_order(repo=None):
 
 def translate(repo=None):
     repo = repo or C.REPO
-    out = ["/- generated by tools/areas/sync.py (translate) from src/{Signal,Monitor,Semaphore}.cpp - do not edit -/",
-           "namespace Nstd.Generated.SyncDeadline", ""]
+    out = ["import Nstd.Sync.CArith",
+           "/- generated by tools/areas/sync.py (translate) from src/{Signal,Monitor,Semaphore}.cpp - do not edit -/",
+           "namespace Nstd.Generated.SyncDeadline", "open Nstd.Sync.CArith", ""]
     summary = []
     try:
         for name, cls, rel, call in DEADLINE_SOURCES:
-            text, lets, sec, nsec = translate_deadline(repo, cls, rel, call)
+            text, lets, sec, nsec, clets, obl, csec, cnsec = translate_deadline(repo, cls, rel, call)
             out.append(f"/-- `{cls}::wait(int64 timeout)`, between `clock_gettime(CLOCK_REALTIME, &ts)` and `{call}(…, &ts)`:")
             out.append(f"    `{text}` -/")
             out.append(f"def {name} (sec nsec timeout : Int) : Int × Int :=")
             out += lets
             out.append(f"  ({sec}, {nsec})")
             out.append("")
-            summary.append(f"{cls}: {len(lets)} assignment(s)")
+            out.append(f"/-- the same statements with C's semantics on LP64 (`/` `%` truncate towards zero; every arithmetic result named) -/")
+            out.append(f"def {name}C (sec nsec timeout : Int) : Int × Int :=")
+            out += clets
+            out.append(f"  ({csec}, {cnsec})")
+            out.append("")
+            out.append(f"/-- no undefined behaviour in those statements: every arithmetic result fits its C type, no divisor is zero -/")
+            out.append(f"def {name}Safe (sec nsec timeout : Int) : Prop :=")
+            out += clets
+            out.append("  " + " ∧ ".join(obl or ["True"]))
+            out.append("")
+            summary.append(f"{cls}: {len(lets)} assignment(s), {len(obl)} range / divisor obligation(s)")
     except (OSError, TransErr) as e:
         return False, str(e)
     out.append("end Nstd.Generated.SyncDeadline")
